@@ -44,6 +44,13 @@ def _is_forward(ctx: Ctx, f: FuncInfo, call: ast.Call):
     for a_ in call.args:
         if isinstance(a_, ast.Attribute) and a_.attr == "evaluate" and (is_self_attr(a_.value, "_inner", f.self_name()) or (isinstance(a_.value, ast.Call) and norm(a_.value.func) == "super")):
             return "via-helper"
+    if isinstance(fn, ast.Name):
+        # a local holding the bound method: `forward = super().evaluate; ...; forward(x, *args, **kwargs)`
+        from ..core import local_defs
+
+        ds = local_defs(f).get(fn.id, [])
+        if len(ds) == 1 and isinstance(ds[0], ast.Attribute) and ds[0].attr == "evaluate":
+            fn = ds[0]
     if not (isinstance(fn, ast.Attribute) and fn.attr == "evaluate"):
         return None
     if is_self_attr(fn.value, "_inner", f.self_name()):
@@ -139,13 +146,38 @@ def function_summaries(ctx: Ctx, f: FuncInfo, ci, _depth=0) -> list[PathSummary]
                     if not okh:
                         raise Inconclusive(f"{f.short} hands the wrapped evaluate to `{norm(c.func)}`, which is not followed")
                     synth = ast.copy_location(ast.Call(func=c.args[pos], args=list(c.args[pos + 1:]), keywords=list(c.keywords)), c)
+                    # the helper may also do the tally (`fitness = evaluate(x); self._n_evals += 1; return fitness`): read it off a
+                    # straight-line helper; a branching one is not followed
+                    h = tg[0]
+                    h_incs = [y for y in ast.walk(h.node) if isinstance(y, ast.AugAssign) and is_self_attr(y.target, cattr, h.self_name())] if h.cls is not None else []
+                    h_stores = [y for y in ast.walk(h.node) if isinstance(y, (ast.Assign, ast.AnnAssign)) and any(is_self_attr(t_, None, h.self_name()) for t_ in (y.targets if isinstance(y, ast.Assign) else [y.target]))] if h.cls is not None else []
+                    if (h_incs or h_stores) and any(isinstance(y, (ast.If, ast.While, ast.For, ast.Try, ast.IfExp, ast.With)) for y in ast.walk(h.node)):
+                        raise Inconclusive(f"{f.short} forwards through `{norm(c.func)}`, which also writes wrapper state under conditions: not followed")
+                    if h_stores:
+                        raise Inconclusive(f"{f.short} forwards through `{norm(c.func)}`, which also stores wrapper state: not followed")
                     for s in sums:
+                        before = [y for y in h_incs if y.lineno < hcalls[0].lineno]
+                        after = [y for y in h_incs if y.lineno >= hcalls[0].lineno]
+                        for y in before:
+                            ok_ = isinstance(y.op, ast.Add) and isinstance(y.value, ast.Constant) and y.value.value == 1
+                            if ok_:
+                                s.increments = min(2, s.increments + 1)
+                                s.events.append(("inc", y))
+                            else:
+                                s.bad_increment.append(y)
                         if s.increments > 0:
                             s.inc_before_forward = True
                         s.forwards = min(2, s.forwards + 1)
                         s.args_ok = s.args_ok and _args_unchanged(f, synth)
                         s.events.append(("forward", c))
                         s._super_ret = "forwarded"
+                        for y in after:
+                            ok_ = isinstance(y.op, ast.Add) and isinstance(y.value, ast.Constant) and y.value.value == 1
+                            if ok_:
+                                s.increments = min(2, s.increments + 1)
+                                s.events.append(("inc", y))
+                            else:
+                                s.bad_increment.append(y)
                     continue
                 if k == "super":
                     owner = f.cls
@@ -179,6 +211,32 @@ def function_summaries(ctx: Ctx, f: FuncInfo, ci, _depth=0) -> list[PathSummary]
                         s.args_ok = s.args_ok and _args_unchanged(f, c)
                         s.events.append(("forward", c))
                         s._super_ret = "forwarded"
+            # a hook of the wrapper itself run as a statement (`self._after_evaluation()`, a template method): what an instance
+            # of class ci executes there is the method looked up from ci
+            if isinstance(a, ast.Expr) and isinstance(a.value, ast.Call) and isinstance(a.value.func, ast.Attribute) and isinstance(a.value.func.value, ast.Name) and a.value.func.value.id == selfn and not fw:
+                hook = ctx.prog.lookup_method(ci, a.value.func.attr)
+                if hook is not None and hook.cls is not None and ctx.prog.is_subclass(hook.cls, ctx.prog.cls("Problem")) and hook is not f:
+                    hsums = function_summaries(ctx, hook, ci, _depth + 1)
+                    new = []
+                    for s in sums:
+                        for hs in hsums:
+                            s2 = PathSummary(
+                                forwards=min(2, s.forwards + hs.forwards),
+                                increments=min(2, s.increments + hs.increments),
+                                inc_before_forward=s.inc_before_forward or hs.inc_before_forward or (s.increments > 0 and hs.forwards > 0),
+                                bad_increment=s.bad_increment + hs.bad_increment,
+                                args_ok=s.args_ok and hs.args_ok,
+                                ret=s.ret,
+                                ret_node=s.ret_node,
+                                conds=list(s.conds) + list(hs.conds),
+                                nodes=list(s.nodes) + list(hs.nodes),
+                                events=list(s.events) + list(hs.events),
+                            )
+                            if hasattr(s, "_super_ret"):
+                                s2._super_ret = s._super_ret
+                            new.append(s2)
+                    sums = new
+                    continue
             # names bound to the forwarded value
             if fw and isinstance(a, (ast.Assign, ast.AnnAssign)) and len(fw) == 1 and (a.value is fw[0][0]):
                 tg = a.targets if isinstance(a, ast.Assign) else [a.target]
